@@ -865,7 +865,21 @@ def run_monitors(tr, which=None):
             last_us = None
             from harness.exchange_driver import when_us
             cut = when_us(st["bar"][1])
-            t2.events = [e for e in tr.events if e[0] < cut]
+            # events of earlier bars that carry the same timestamp (other pairs) belong to the monitored prefix: keep
+            # those that report a state an order was observed in before the failing bar
+            seen = set()
+            for j in range(k):
+                for o in tr.steps[j]["snap"]["orders"]:
+                    seen.add((o["idx"], o["is_open"], o["filled"], o["qfilled"], sum(o["fees"].values(), ZERO)))
+
+            def before_failure(e):
+                w, idx, info = e
+                if w < cut:
+                    return True
+                key = (idx, info.is_open, F(info.amount_filled), F(info.quote_amount_filled),
+                       sum((F(x) for x in info.fees.values()), ZERO))
+                return w == cut and key in seen
+            t2.events = [e for e in tr.events if before_failure(e)]
             tr = t2
             break
     ctx = Ctx(tr)
